@@ -125,7 +125,10 @@ class PjRpcMocker:
         """
 
         match = Match(endpoint, version, method_name, once, id=id, result=result, error=error, callback=callback)
-        self._matches[endpoint][(version, method_name)][idx] = match
+        try:
+            self._matches[endpoint][(version, method_name)][idx] = match
+        finally:
+            self._cleanup_matches(endpoint, version, method_name)
 
     def remove(
         self,
@@ -144,12 +147,13 @@ class PjRpcMocker:
         """
 
         result: Union[MatchType, List[Match]]
-        if method_name is None:
-            result = self._matches.pop(endpoint)
-        else:
-            result = self._matches[endpoint].pop((version, method_name))
-
-        self._cleanup_matches(endpoint, version, method_name)
+        try:
+            if method_name is None:
+                result = self._matches.pop(endpoint)
+            else:
+                result = self._matches[endpoint].pop((version, method_name))
+        finally:
+            self._cleanup_matches(endpoint, version, method_name)
 
         return result
 
